@@ -23,8 +23,8 @@ ALPHABET = [
     ("add_edge", ((2,), (0, 1))), ("add_edge", ((0,), (2, 1)), 2), ("add_edge", ((0,), (1,)), None, {"t": "x"}), ("add_edge", ((3,), (0,)), 1),
     ("add_edges", [((0,), (1,)), ((1,), (2, 3))]), ("add_edges", [((0,), (2,)), ((2,), (1,))], [2, 3]),
     ("remove_edge", ((0,), (1,))), ("remove_edge", ((1,), (0,))), ("remove_edge", ((1, 0), (2,))),
-    ("remove_edges", [((0,), (1,)), ((0, 1), (2,))]),
-    ("remove_node", 0), ("remove_node", 2), ("remove_nodes", [0, 1]),
+    ("remove_edges", [((0,), (1,)), ((0, 1), (2,))]), ("remove_edges", [((0,), (1,)), ((0,), (1,))]),
+    ("remove_node", 0), ("remove_node", 2), ("remove_nodes", [0, 1]), ("remove_nodes", [0, 0]),
     ("set_weight", ((0,), (1,)), 5), ("set_weight", ((0, 1), (2,)), 1),
     ("set_node_metadata", 0, {"a": 1}), ("set_edge_metadata", ((0,), (1,)), {"b": 2}),
     ("set_attr_node", 0, "x", 1), ("set_attr_node", 2, "z", 3), ("set_attr_edge", ((0,), (1,)), "y", 2),
